@@ -131,8 +131,7 @@ class RiemannIGEOS(SetupRiemannProblem):
         soln_type = 'rarefaction-contact-rarefaction-RCR'
         px = bisect(lambda p: RCR_call(p, self), 0., pmax)
       elif (ur > u_RCVR_val):
-        soln_type = 'R,C,V,C,R'
-        print('the solution for this problem is not ready')
+        raise ValueError('R,C,V,C,R: the solution for this problem is not ready')
 
       # Determine the star state values for the contact discontinuity, and the
       # left/right star state vals for density, sound speed and internal energy.
